@@ -46,6 +46,9 @@ type OptSpec struct {
 	PMD              bool        `json:"pmd,omitempty"` // per-message deflate on
 	PMDThreshold     int         `json:"pmdthr,omitempty"`
 	InitialPacket    string      `json:"initial,omitempty"`
+	// Primer: before the server under observation is built, another server with these transports lives in the
+	// same process and serves one polling handshake (servers must not share what they advertise)
+	Primer []string `json:"primer,omitempty"`
 	Cookie           *CookieSpec `json:"cookie,omitempty"`
 	Cors             *CorsSpec   `json:"cors,omitempty"`
 	AllowRequest     string      `json:"allowRequest,omitempty"` // "", "ok", "deny:<text>", "deny-origin:<origin>"
@@ -272,6 +275,14 @@ func (o *OptSpec) build(w *World) *config.ServerOptions {
 // startServer builds the engine server and registers recording listeners.  It
 // must run inside a task.
 func (w *World) startServer(o *OptSpec, att *AttachSpec) {
+	if len(o.Primer) > 0 {
+		po := &OptSpec{Transports: o.Primer, AllowUpgrades: true, AllowEIO3: true, CompThreshold: -1}
+		primer := engine.NewServer(po.build(w))
+		r := w.serve(primer, "prober", ReqSpec{Method: "GET", Path: "/engine.io/", Query: "EIO=4&transport=polling"})
+		w.recx(Ev{Kind: "primer-handshake", N: int64(r.Status), S: clip(string(r.Body), 120)})
+		primer.Close()
+		w.probe("primer_server")
+	}
 	opts := o.build(w)
 	if att != nil && att.UseHttpServer {
 		w.HS = types.NewWebServer(http.HandlerFunc(func(rw http.ResponseWriter, r *http.Request) {
